@@ -131,4 +131,7 @@ def bayes_expand(p: Probability) -> Expression:
         DeprecationWarning,
         stacklevel=2,
     )
-    return p.uncondition().normalize_marginalize(p.children)
+    # an outcome that is also conditioned on is fixed by the condition, it is not summed over
+    return p.uncondition().normalize_marginalize(
+        [child for child in p.children if child not in p.parents]
+    )
